@@ -52,12 +52,17 @@ type Run struct {
 	// RecycledSigCap > 0: LibIssue hands go-cose message objects whose signature
 	// slots are empty slices with that much capacity (world.go)
 	RecycledSigCap int
-	signers        map[string]cose.Signer // long-lived Signer objects of this run (world.go)
-	mapPerms       int                    // non-identity permutations handed to map ranges of go-cose (instrumented builds)
-	shape          []string
-	sched          []uint64 // schedule hashes of the concurrent blocks of this run
-	trace          []string // rendered operations (kept short)
-	Logged         *strings.Builder
+	// LeaveAlgToLibrary: where a message is signed without external data,
+	// LibIssue takes the alg parameter out of the protected maps it built (the
+	// library writes the signer's algorithm there itself when signing), and
+	// may state it in the unprotected bucket as a hint instead.
+	LeaveAlgToLibrary bool
+	signers           map[string]cose.Signer // long-lived Signer objects of this run (world.go)
+	mapPerms          int                    // non-identity permutations handed to map ranges of go-cose (instrumented builds)
+	shape             []string
+	sched             []uint64 // schedule hashes of the concurrent blocks of this run
+	trace             []string // rendered operations (kept short)
+	Logged            *strings.Builder
 }
 
 // NewRun prepares a run.
